@@ -530,6 +530,14 @@ def main():
     cfg = PROPS[pid]
     t0 = time.time()
     log = []
+    if replay is None:
+        # replay files of an earlier run of this check with this seed are stale now
+        import glob as _glob
+        for f in _glob.glob(os.path.join(VERIF, "replays", f"{pid}-{seed}-*.json")):
+            try:
+                os.remove(f)
+            except OSError:
+                pass
     infra_ok, lean_ok, lean_msg = build_all(pid, log)
     if not infra_ok:
         print(f"INFRASTRUCTURE-FAILURE property={pid}: {lean_msg[-600:]}")
